@@ -190,7 +190,9 @@ func ValidateParameter(ctx context.Context, input *RequestValidationInput, param
 			}
 		}
 
-		if value != nil {
+		// an empty array has no serialisation that reads back as a value ("q=" is "present without a value"):
+		// nothing is written for it, as with explode
+		if items, isArray := value.([]any); value != nil && !(isArray && len(items) == 0) {
 			req := input.Request
 			switch parameter.In {
 			case openapi3.ParameterInPath:
